@@ -16,7 +16,7 @@ From stdpp Require Import gmap.
 From Argot Require Import Base.Fix Model.EscGraph Proofs.EscGraph.
 
 (** ** The order and the equivalence computed by the code *)
-Theorem lessEqual_spec : forall ord, (forall l, ord l ≡ₚ l) ->
+Theorem lessEqual_spec : forall (ord : list node -> list node), (forall l, ord l ≡ₚ l) ->
   forall g h, less_equal ord g h = true <-> le_g g h.
 Proof. exact less_equal_spec. Qed.
 
@@ -30,12 +30,12 @@ Theorem le_antisym : forall intr g h, wf intr g -> wf intr h -> le_g g h -> le_g
 Proof. exact le_g_antisym. Qed.
 
 (** ** computeEdgeClosure: the fuel bound suffices, the result is the least closed status above the input *)
-Theorem closure_fuel_suffices : forall ord, (forall l, ord l ≡ₚ l) ->
+Theorem closure_fuel_suffices : forall (ord : list node -> list node), (forall l, ord l ≡ₚ l) ->
   forall e a b st, exists st', closure_st ord (close_fuel e) e a b st = Done st'.
 Proof. exact closure_st_done. Qed.
 
 (** ** The primitives compute least invariant extensions *)
-Theorem add_edge_least : forall intr ord, (forall l, ord l ≡ₚ l) -> forall a b f g,
+Theorem add_edge_least : forall intr (ord : list node -> list node), (forall l, ord l ≡ₚ l) -> forall a b f g,
   Inv intr g -> f_is_none f = false ->
   Inv intr (add_edge intr ord a b f g) /\ le_g g (add_edge intr ord a b f g) /\
   (forall x, f_has f x = true -> hasb (add_edge intr ord a b f g) a b x) /\
@@ -43,7 +43,7 @@ Theorem add_edge_least : forall intr ord, (forall l, ord l ≡ₚ l) -> forall a
              le_g (add_edge intr ord a b f g) k).
 Proof. exact add_edge_spec. Qed.
 
-Theorem merge_node_status_least : forall intr ord, (forall l, ord l ≡ₚ l) -> forall n s g,
+Theorem merge_node_status_least : forall intr (ord : list node -> list node), (forall l, ord l ≡ₚ l) -> forall n s g,
   Inv intr g -> n ∈ dom (status g) ->
   Inv intr (merge_node_status ord n s g) /\ le_g g (merge_node_status ord n s g) /\
   sle s (sigma (status (merge_node_status ord n s g)) n) /\
@@ -53,79 +53,79 @@ Proof. exact merge_node_status_spec. Qed.
 (** ** Merge *)
 (** order-free specification: whatever order the edges and statuses of [h] are visited in, and whatever the
     iteration order inside the closure, the result is the closure of (union of edges, maximum of statuses) *)
-Theorem merge_spec : forall intr o1 o2, (forall l, o1 l ≡ₚ l) -> (forall l, o2 l ≡ₚ l) ->
+Theorem merge_spec : forall intr (o1 o2 : list node -> list node), (forall l, o1 l ≡ₚ l) -> (forall l, o2 l ≡ₚ l) ->
   forall es ss g h, covers es ss h -> Inv intr g -> Inv intr h ->
   merge_lists intr o1 es ss g = join_spec o2 g h.
 Proof. exact merge_lists_eq_join. Qed.
 
-Theorem merge_spec_model : forall intr o1 o2, (forall l, o1 l ≡ₚ l) -> (forall l, o2 l ≡ₚ l) ->
+Theorem merge_spec_model : forall intr (o1 o2 : list node -> list node), (forall l, o1 l ≡ₚ l) -> (forall l, o2 l ≡ₚ l) ->
   forall g h, Inv intr g -> Inv intr h -> merge intr o1 g h = join_spec o2 g h.
 Proof. exact merge_eq_join. Qed.
 
-Theorem merge_order_free : forall intr o1 o2, (forall l, o1 l ≡ₚ l) -> (forall l, o2 l ≡ₚ l) ->
+Theorem merge_order_free : forall intr (o1 o2 : list node -> list node), (forall l, o1 l ≡ₚ l) -> (forall l, o2 l ≡ₚ l) ->
   forall es1 ss1 es2 ss2 g h, covers es1 ss1 h -> covers es2 ss2 h -> Inv intr g ->
   merge_lists intr o1 es1 ss1 g = merge_lists intr o2 es2 ss2 g.
 Proof. exact merge_lists_order_free. Qed.
 
-Theorem merge_preserves_inv : forall intr o1, (forall l, o1 l ≡ₚ l) ->
+Theorem merge_preserves_inv : forall intr (o1 : list node -> list node), (forall l, o1 l ≡ₚ l) ->
   forall g h, Inv intr g -> Inv intr (merge intr o1 g h).
 Proof. exact merge_inv. Qed.
 
-Theorem merge_idem : forall intr o1, (forall l, o1 l ≡ₚ l) -> forall g, Inv intr g -> merge intr o1 g g = g.
+Theorem merge_idem : forall intr (o1 : list node -> list node), (forall l, o1 l ≡ₚ l) -> forall g, Inv intr g -> merge intr o1 g g = g.
 Proof. exact EscGraphMerge.merge_idem. Qed.
 
-Theorem merge_comm : forall intr o1 o2, (forall l, o1 l ≡ₚ l) -> (forall l, o2 l ≡ₚ l) ->
+Theorem merge_comm : forall intr (o1 o2 : list node -> list node), (forall l, o1 l ≡ₚ l) -> (forall l, o2 l ≡ₚ l) ->
   forall g h, Inv intr g -> Inv intr h -> merge intr o1 g h = merge intr o2 h g.
 Proof. exact EscGraphMerge.merge_comm. Qed.
 
-Theorem merge_assoc : forall intr o1 o2 o3 o4,
+Theorem merge_assoc : forall intr (o1 o2 o3 o4 : list node -> list node),
   (forall l, o1 l ≡ₚ l) -> (forall l, o2 l ≡ₚ l) -> (forall l, o3 l ≡ₚ l) -> (forall l, o4 l ≡ₚ l) ->
   forall g h k, Inv intr g -> Inv intr h ->
   merge intr o1 (merge intr o2 g h) k = merge intr o3 g (merge intr o4 h k).
 Proof. exact EscGraphMerge.merge_assoc. Qed.
 
-Theorem merge_ub : forall intr o1, (forall l, o1 l ≡ₚ l) ->
+Theorem merge_ub : forall intr (o1 : list node -> list node), (forall l, o1 l ≡ₚ l) ->
   forall g h, Inv intr g -> le_g g (merge intr o1 g h) /\ le_g h (merge intr o1 g h).
 Proof. exact EscGraphMerge.merge_ub. Qed.
 
-Theorem merge_lub : forall intr o1, (forall l, o1 l ≡ₚ l) ->
+Theorem merge_lub : forall intr (o1 : list node -> list node), (forall l, o1 l ≡ₚ l) ->
   forall g h k, Inv intr g -> Inv intr k -> le_g g k -> le_g h k -> le_g (merge intr o1 g h) k.
 Proof. exact merge_least. Qed.
 
-Theorem le_iff_merge_noop : forall intr o1, (forall l, o1 l ≡ₚ l) ->
+Theorem le_iff_merge_noop : forall intr (o1 : list node -> list node), (forall l, o1 l ≡ₚ l) ->
   forall g h, Inv intr g -> Inv intr h -> le_g g h <-> merge intr o1 h g = h.
 Proof. exact le_iff_merge. Qed.
 
 (** ** Monotonicity of the primitives ([prim_mono]) *)
-Theorem add_node_mono : forall intr ord, (forall l, ord l ≡ₚ l) -> forall n g g',
+Theorem add_node_mono : forall intr (ord : list node -> list node), (forall l, ord l ≡ₚ l) -> forall n g g',
   Inv intr g -> Inv intr g' -> le_g g g' -> le_g (add_node intr n g) (add_node intr n g').
 Proof. exact EscGraphMerge.add_node_mono. Qed.
 
-Theorem add_edge_mono : forall intr ord, (forall l, ord l ≡ₚ l) -> forall a b f g g',
+Theorem add_edge_mono : forall intr (ord : list node -> list node), (forall l, ord l ≡ₚ l) -> forall a b f g g',
   f_is_none f = false -> Inv intr g -> Inv intr g' -> le_g g g' ->
   le_g (add_edge intr ord a b f g) (add_edge intr ord a b f g').
 Proof. exact EscGraphMerge.add_edge_mono. Qed.
 
-Theorem merge_node_status_mono : forall intr ord, (forall l, ord l ≡ₚ l) -> forall n s g g',
+Theorem merge_node_status_mono : forall intr (ord : list node -> list node), (forall l, ord l ≡ₚ l) -> forall n s g g',
   n ∈ dom (status g) -> Inv intr g -> Inv intr g' -> le_g g g' ->
   le_g (merge_node_status ord n s g) (merge_node_status ord n s g').
 Proof. exact EscGraphMerge.merge_node_status_mono. Qed.
 
-Theorem add_then_merge_status_mono : forall intr ord, (forall l, ord l ≡ₚ l) -> forall n s g g',
+Theorem add_then_merge_status_mono : forall intr (ord : list node -> list node), (forall l, ord l ≡ₚ l) -> forall n s g g',
   Inv intr g -> Inv intr g' -> le_g g g' ->
   le_g (merge_node_status ord n s (add_node intr n g)) (merge_node_status ord n s (add_node intr n g')).
 Proof. exact add_status_mono. Qed.
 
-Theorem weak_assign_mono : forall intr ord, (forall l, ord l ≡ₚ l) -> forall dest src g g',
+Theorem weak_assign_mono : forall intr (ord : list node -> list node), (forall l, ord l ≡ₚ l) -> forall dest src g g',
   Inv intr g -> Inv intr g' -> le_g g g' ->
   le_g (weak_assign_flat intr ord dest src g) (weak_assign_flat intr ord dest src g').
 Proof. exact weak_assign_flat_mono. Qed.
 
-Theorem merge_mono_left : forall intr o1 o2, (forall l, o1 l ≡ₚ l) -> (forall l, o2 l ≡ₚ l) ->
+Theorem merge_mono_left : forall intr (o1 o2 : list node -> list node), (forall l, o1 l ≡ₚ l) -> (forall l, o2 l ≡ₚ l) ->
   forall g g' h, Inv intr g -> Inv intr g' -> le_g g g' -> le_g (merge intr o1 g h) (merge intr o2 g' h).
 Proof. exact EscGraphMerge.merge_mono_left. Qed.
 
-Theorem merge_mono_right : forall intr o1 o2, (forall l, o1 l ≡ₚ l) -> (forall l, o2 l ≡ₚ l) ->
+Theorem merge_mono_right : forall intr (o1 o2 : list node -> list node), (forall l, o1 l ≡ₚ l) -> (forall l, o2 l ≡ₚ l) ->
   forall g h h', Inv intr g -> le_g h h' -> le_g (merge intr o1 g h) (merge intr o2 g h').
 Proof. exact EscGraphMerge.merge_mono_right. Qed.
 
@@ -146,7 +146,7 @@ Proof. exact Fix.wl_order_irrelevant. Qed.
 
 (** the escape analysis' block loop: merge of the predecessors' block-end graphs followed by ANY monotone
     invariant-preserving transfer function; every run that empties the worklist yields the same graphs *)
-Theorem block_fixpoint_order_free : forall intr ord, (forall l, ord l ≡ₚ l) ->
+Theorem block_fixpoint_order_free : forall intr (ord : list node -> list node), (forall l, ord l ≡ₚ l) ->
   forall (n : nat) (preds succs : nat -> list nat),
   (forall j i, In i (preds j) -> i < n) -> (forall i j, In i (preds j) -> In j (succs i)) ->
   forall init, (forall i, Inv intr (init i)) ->
